@@ -3,13 +3,14 @@
    Models: Gen/LinePP.v (hand model of _generate_with_line_buffer, tied by correspondence),
    Generated/Gen_LinePP.v (T2 translation of the two built-in processors and of the
    newline pattern, regenerated from /repo on every run). *)
-From Verif Require Import LinePP LinePPThm LinePPRejoinThm LinePPInst LinePPInstThm LinePPFiles LinePPFilesThm Gen_Pin_linebuf.
+From Verif Require Import LinePP LinePPThm LinePPRejoinThm LinePPInst LinePPInstThm LinePPFiles LinePPFilesThm LinePPOrder LinePPOrderThm LinePPResplitThm Gen_Pin_linebuf.
 Open Scope N_scope.
 
 (* (0) Tie of the hand model Gen/LinePP.v to the source: the shape pin (tools/translators/shape_pin.py) regenerates
    Gen_Pin_linebuf.v from /repo on every run; `pin_linebuf_ok` is only defined when the normalised AST of
-   CodeGenerator._generate_with_line_buffer, _filter_and_write_line, _rejoin_split_crlf and
-   SupportGenerator._copy_header_using_line_pps is the one the model was written for. *)
+   CodeGenerator._generate_with_line_buffer, _filter_and_write_line, _rejoin_split_crlf,
+   SupportGenerator._copy_header_using_line_pps, _generate_code, _reset_line_pp, _handle_post_processors with its two
+   subroutines and ArgparseRunner._build_post_processor_list_from_args is the one the models were written for. *)
 Example C15_linebuf_shape_pinned : pin_linebuf_ok = true.
 Proof. reflexivity. Qed.
 
@@ -29,37 +30,11 @@ Theorem C15_same_text_same_file :
 Proof. exact write_rj_chunk_indep. Qed.
 Print Assumptions C15_same_text_same_file.
 
-(* Why the rejoin stage is needed (documentation of the repaired finding F-CRLF-SPLIT): the buffering loop alone
-   (`write`, the code before the fix) is chunking-independent only when no chunk boundary separates CR from LF ... *)
-Theorem C15_chunk_independence_partial :
-  forall (S : Type) (step : S -> line -> S * line) (chunks : list str) (st : S),
-    no_split_crlf false chunks = true ->
-    write step chunks st = linewise step st (concat chunks).
-Proof.
-  intros S step chunks st H.
-  rewrite (write_chunks_partial S step chunks st H).
-  exact (write_single_linewise S step (concat chunks) st).
-Qed.
-Print Assumptions C15_chunk_independence_partial.
-
-(* ... and is refuted otherwise.  Witness: "abc \r" | "\ndef" through TrimTrailingWhitespace. *)
-Theorem C15_chunk_independence_refuted :
-  exists chunks : list str,
-    snd (write pipe_step chunks [PTrim]) <> snd (linewise pipe_step [PTrim] (concat chunks)).
-Proof.
-  exists [[97; 98; 99; 32; 13]; [10; 100; 101; 102]]. vm_compute. discriminate.
-Qed.
-Print Assumptions C15_chunk_independence_refuted.
-
+(* Why the rejoin stage is needed: History/C15_history.v (C15_chunk_independence_partial / _refuted about the loop alone). *)
 (* the same witness through the repaired function *)
 Example C15_witness_repaired :
   snd (write_rj pipe_step [[97; 98; 99; 32; 13]; [10; 100; 101; 102]] [PTrim])
   = snd (linewise pipe_step [PTrim] [97; 98; 99; 32; 13; 10; 100; 101; 102]).
-Proof. vm_compute. reflexivity. Qed.
-
-(* non-vacuity of the partial statement: a chunking with empty chunks, a CRLF inside a chunk and a cut right after a CR-less line *)
-Example C15_partial_premise_satisfiable :
-  no_split_crlf false [[97; 13; 10]; []; [98; 32]; [10; 10]; [99]] = true.
 Proof. vm_compute. reflexivity. Qed.
 
 (* (2) With processors that change nothing the file is the concatenated output, for EVERY
@@ -96,11 +71,6 @@ Theorem C15_every_file_processed_afresh :
     gen_files ps files = map (fun f => snd (linewise pipe_step (map pp_reset ps) (concat f))) files.
 Proof. exact gen_files_independent. Qed.
 Print Assumptions C15_every_file_processed_afresh.
-
-Example C15_reset_is_needed :
-  gen_files_noreset [PLimit (LimitEmptyLines_init 1)] [[[97; 10; 10]]; [[10; 98]]]
-  <> gen_files [PLimit (LimitEmptyLines_init 1)] [[[97; 10; 10]]; [[10; 98]]].
-Proof. exact gen_files_noreset_leaks. Qed.
 
 (* (3) TrimTrailingWhitespace (translated) removes exactly the maximal trailing run of
    Python-whitespace code points of the line content and keeps the terminator. *)
@@ -142,9 +112,103 @@ Theorem C15_limit_nonempty_subsequence :
 Proof. exact limit_nonempty_subsequence_lemma. Qed.
 Print Assumptions C15_limit_nonempty_subsequence.
 
+(* boundary: the property quantifies over N >= 0; a negative limit (argparse accepts one) elides every line *)
+Theorem C15_limit_negative_deletes_all :
+  forall (N : Z) (ls : list line),
+    (N < 0)%Z -> limit_lines (LimitEmptyLines_init N) ls = map (fun _ => ([], [])) ls.
+Proof. exact limit_negative_deletes_all. Qed.
+Print Assumptions C15_limit_negative_deletes_all.
+
 (* (5) the translated newline pattern `\n|\r\n` finds the first LF or CR-LF (ties the
    character scan of the hand model to the regular expression in the source) *)
 Theorem C15_newline_pattern :
   forall s, re_search py_uni newline_pattern s = first_nl 0 s.
 Proof. exact newline_pattern_spec. Qed.
 Print Assumptions C15_newline_pattern.
+
+(* (5b) ... and the buffering loop of the source IS a loop around that pattern: `feed_loop` is the `while True` loop of
+   _generate_with_line_buffer with newline_pattern.search, `feed` the character scan all theorems above are about. *)
+Theorem C15_regex_loop_is_scan :
+  forall (S : Type) (step : S -> line -> S * line) (part lb : str) (st : S) (out : str),
+    feed_loop step (Datatypes.S (length part)) part lb st out = Some (feed step part lb st out).
+Proof. exact feed_loop_part. Qed.
+Print Assumptions C15_regex_loop_is_scan.
+
+(* (6) THE FILE.  (4) is about the stream the limiter returns; what the user sees is the file.  Lines that are blank
+   (empty or whitespace-only) count: for every pipeline of built-in processors in which a trimmer runs somewhere before a
+   final limiter, the lines written contain at most N consecutive blank ones ... *)
+Theorem C15_file_blank_bound :
+  forall (N : Z) (pre mid : list pp) (ls : list line),
+    (0 <= N)%Z ->
+    blank_runs_ok N 0 (emitted pipe_step (pre ++ PTrim :: mid ++ [PLimit (LimitEmptyLines_init N)]) ls) = true.
+Proof. exact file_blank_bound. Qed.
+Print Assumptions C15_file_blank_bound.
+
+Theorem C15_file_is_concat_of_emitted_lines :
+  forall (S : Type) (step : S -> line -> S * line) (chunks : list str) (st : S),
+    snd (write_rj step chunks st) = concat (map flat (emitted step st (split_lines (concat chunks)))).
+Proof. intros S step chunks st. rewrite write_rj_linewise. apply linewise_is_concat_emitted. Qed.
+Print Assumptions C15_file_is_concat_of_emitted_lines.
+
+(* ... for the pipeline nnvg builds by default, read back from the written file, for EVERY chunking: *)
+Theorem C15_default_file_blank_bound :
+  forall (N : Z) (chunks : list str),
+    (0 <= N)%Z ->
+    blank_runs_ok N 0 (split_lines (snd (write_builtin [PTrim; PLimit (LimitEmptyLines_init N)] chunks))) = true.
+Proof. exact default_file_blank_bound. Qed.
+Print Assumptions C15_default_file_blank_bound.
+
+(* ... and no non-blank line is removed or altered beyond its trailing whitespace *)
+Theorem C15_default_file_nonblank_lines :
+  forall (N : Z) (chunks : list str),
+    (0 <= N)%Z ->
+    filter (fun l => negb (empty_content l)) (split_lines (snd (write_builtin [PTrim; PLimit (LimitEmptyLines_init N)] chunks)))
+    = map trim_line (filter (fun l => negb (blank l)) (split_lines (concat chunks))).
+Proof. exact default_file_nonblank_lines. Qed.
+Print Assumptions C15_default_file_nonblank_lines.
+
+(* the order matters: with the limiter first, whitespace-only lines pass it as non-empty and are emptied afterwards *)
+Example C15_order_matters :
+  blank_runs_ok 1 0 (emitted pipe_step [PLimit (LimitEmptyLines_init 1); PTrim]
+                            (split_lines [97; 10; 32; 10; 32; 10; 32; 10; 98; 10])) = false.
+Proof. exact limit_before_trim_unbounded. Qed.
+
+(* (7) _handle_post_processors (language options limit_empty_lines / trim_trailing_whitespace): when trimming is configured
+   and the caller supplied no trimmer of their own, the trimmer is placed before every limiter (repaired finding
+   F-LIMIT-BEFORE-TRIM) ... *)
+Theorem C15_handle_trim_before_limit :
+  forall (cfg_limit : option Z) (given : option (list pk)) (l : list pk),
+    (forall g, given = Some g -> existsb is_trim g = false) ->
+    handle_pps cfg_limit true given = Some l ->
+    exists pre post, l = pre ++ KTrim :: post /\ existsb is_limit pre = false.
+Proof. exact handle_trim_before_limit. Qed.
+Print Assumptions C15_handle_trim_before_limit.
+
+(* ... nothing the caller supplied is dropped or reordered ... *)
+Theorem C15_handle_keeps_given :
+  forall cfg_limit cfg_trim g l,
+    handle_pps cfg_limit cfg_trim (Some g) = Some l ->
+    filter (fun k => negb (is_trim k) && negb (is_limit k)) l = filter (fun k => negb (is_trim k) && negb (is_limit k)) g.
+Proof. exact handle_keeps_given. Qed.
+Print Assumptions C15_handle_keeps_given.
+
+(* ... with both options on and no line processor from the caller the pipeline is exactly [Trim; Limit N], the one (6) is about ... *)
+Theorem C15_handle_default :
+  forall N g,
+    existsb is_trim g = false -> existsb is_limit g = false ->
+    exists l, handle_pps (Some N) true (Some g) = Some l /\ to_pps l = [PTrim; PLimit (LimitEmptyLines_init N)].
+Proof. exact handle_default. Qed.
+Print Assumptions C15_handle_default.
+
+(* ... and for nnvg as a whole (command-line list, then language configuration): a list that trims, trims before it limits *)
+Theorem C15_cli_then_handle_order :
+  forall t lim ext cfg_limit cfg_trim l,
+    handle_pps cfg_limit cfg_trim (Some (cli_list t lim ext)) = Some l ->
+    existsb is_trim l = true ->
+    exists pre post, l = pre ++ KTrim :: post /\ existsb is_limit pre = false.
+Proof. exact cli_then_handle_order. Qed.
+Print Assumptions C15_cli_then_handle_order.
+
+Example C15_handle_nonvacuous :
+  handle_pps (Some 2%Z) true (Some [KOther; KLimit 1%Z]) = Some [KOther; KTrim; KLimit 1%Z].
+Proof. reflexivity. Qed.
